@@ -205,10 +205,12 @@ def run_case(case, g, tier, res):
             text = "N{[<][<]CC[>][>]}|gauss(60,5)|{[<][<]CO[>][>]}|flory_schulz(0.1)|F"
             mol = g.Molecule(text)
             draws = []
+            values = []
 
             def detail(what):
                 def build(mv, c):
-                    return (f"C09:draws:{what}", f"{what} for {text}", {"kind": "draws", "text": text, "what": what})
+                    vals = [float(c.eval_in(mv, v)) for v in values]
+                    return (f"C09:draws:{what}", f"{what} for {text} (drawn values {vals})", {"kind": "draws", "text": text, "what": what, "values": vals})
                 return build
 
             for el in mol._elements:
@@ -219,6 +221,7 @@ def run_case(case, g, tier, res):
                     def rvs(*a, _el=el, _o=obj, **kw):
                         draws.append((_el, kw.get("random_state")))
                         v = core.ctx().fresh_real("t", None, 20)
+                        values.append(v)
                         return v
                     obj.rvs = rvs
             rng = SymRng()
@@ -291,13 +294,14 @@ def replay(rp, gb):
     if rp["kind"] == "draws":
         mol = gb.Molecule(rp["text"])
         draws = []
+        vals = list(rp.get("values", []))
         for el in mol._elements:
             if isinstance(el, gb.Stochastic):
                 obj = el.distribution._distribution
 
                 def rvs(*a, _el=el, **kw):
                     draws.append((_el, kw.get("random_state")))
-                    return 10.0
+                    return vals.pop(0) if vals else 10.0
                 obj.rvs = rvs
         rng = np.random.default_rng(3)
         mol.generate(rng=rng)
